@@ -201,6 +201,8 @@ type Sim struct {
 	Draining    bool
 	OnRelease   func(c *Call, o Outcome) // observation hook, called by the scheduler before a parked call resumes
 	cbLog       []cbRec
+	// OnCtxDone, when set, is told about a parked call whose caller gave up (context deadline / cancellation): the call was never applied
+	OnCtxDone func(c *Call)
 }
 
 func NewSim(t *testing.T, plan *Plan) *Sim {
@@ -281,6 +283,9 @@ func (s *Sim) Park(ctx context.Context, kind, key string, info any) Outcome {
 		delete(s.parked, c.ID())
 		s.side = append(s.side, "ctxdone "+c.ID())
 		s.mu.Unlock()
+		if s.OnCtxDone != nil {
+			s.OnCtxDone(c)
+		}
 		return Outcome{CtxErr: ctx.Err()}
 	}
 }
